@@ -413,6 +413,7 @@ func final(x *netctl.Exec, st *state) {
 		return
 	}
 	dur := end - start
+	x.Logf("C13: Close called %s took %v (bound %v)", placed, dur, w.bound)
 	if dur > w.bound {
 		x.Violate("close-late", "Close called %s returned after %v (virtual); bound %v", placed, dur, w.bound)
 	}
